@@ -2,11 +2,14 @@ SPECIFICATION Spec
 CONSTANTS
   MaxLen = 5
   MaxLenCheap = 6
+  KindLen = 4
   InitAll = FALSE
   BugNextArgNoSkip = FALSE
   BugUseFlagAll = FALSE
   BugOptionalOrigState = FALSE
   BugNames = "none"
+  BugMissingIsOther = FALSE
+  BugUsage = "none"
 VIEW View
-INVARIANTS TypeOK FamilyTerminates ConsumedExactlyOnce OptionValueNotPositional FlagNeverFails HelpLaw SuccessLeavesNothing
+INVARIANTS TypeOK FamilyTerminates ConsumedExactlyOnce OptionValueNotPositional FlagNeverFails HelpLaw SuccessLeavesNothing ErrorKindLaw UsageModelOK
 CHECK_DEADLOCK FALSE
